@@ -461,7 +461,7 @@ impl<'a> JoinOutput<'a> {
 
         let extracted_results =
             self.extract_results_tuple(&step_results_name, result_pats, None, step_number);
-        let err_to_err = quote! { ::std::result::Result::Err(__err) => ::std::result::Result::Err(__err) };
+        let err_to_err = quote! { __join_core::result::Result::Err(__err) => __join_core::result::Result::Err(__err) };
 
         if is_try && (step_number) < max_step_count - 1 {
             if transpose {
@@ -476,7 +476,7 @@ impl<'a> JoinOutput<'a> {
                         (
                             quote! { #result_var.as_ref().map(|_| true).unwrap_or(false) },
                             quote! {
-                                #index => #result_var.map(|_| ::std::unreachable!())
+                                #index => #result_var.map(|_| __join_core::unreachable!())
                             },
                         )
                     })
@@ -486,10 +486,10 @@ impl<'a> JoinOutput<'a> {
                 quote! {
                     #step_stream
                     #extracted_results
-                    if let ::std::option::Option::Some(__fail_index) = ::std::iter::Iterator::position(&mut [#( #is_result_successful ),*].iter(), |#value_name| !#value_name) {
+                    if let __join_core::option::Option::Some(__fail_index) = __join_core::iter::Iterator::position(&mut [#( #is_result_successful ),*].iter(), |#value_name| !#value_name) {
                         match __fail_index {
                             #( #result_vars_matcher ),*,
-                            _ => ::std::unreachable!()
+                            _ => __join_core::unreachable!()
                         }
                     } else {
                         #next_step_stream
@@ -507,7 +507,7 @@ impl<'a> JoinOutput<'a> {
                             );
                             index += 1;
 
-                            Some(quote! { ::std::result::Result::Ok(#result_var) })
+                            Some(quote! { __join_core::result::Result::Ok(#result_var) })
                         } else {
                             None
                         }
@@ -524,7 +524,7 @@ impl<'a> JoinOutput<'a> {
                 quote! {
                     #step_stream
                     match #step_results_name {
-                        ::std::result::Result::Ok(#step_results_name) => {
+                        __join_core::result::Result::Ok(#step_results_name) => {
                             #current_step_results
                             #next_step_stream
                         },
@@ -559,7 +559,7 @@ impl<'a> JoinOutput<'a> {
 
                     quote! {
                         match #step_results_name {
-                            ::std::result::Result::Ok(#step_results_name) => {
+                            __join_core::result::Result::Ok(#step_results_name) => {
                                 #extracted_results
                                 #transposer
                             },
@@ -569,9 +569,9 @@ impl<'a> JoinOutput<'a> {
                 } else {
                     quote! {
                         match #step_results_name {
-                            ::std::result::Result::Ok(#step_results_name) => {
+                            __join_core::result::Result::Ok(#step_results_name) => {
                                 #extracted_results
-                                ::std::result::Result::Ok((#(# result_vars ),*))
+                                __join_core::result::Result::Ok((#(# result_vars ),*))
                             },
                             #err_to_err
                         }
@@ -581,7 +581,7 @@ impl<'a> JoinOutput<'a> {
                 let value_name = construct_internal_value_name();
                 quote! {
                     match #step_results_name {
-                        ::std::result::Result::Ok(#value_name) => ::std::result::Result::Ok((#value_name)),
+                        __join_core::result::Result::Ok(#value_name) => __join_core::result::Result::Ok((#value_name)),
                         #err_to_err
                     }
                 }
@@ -1141,10 +1141,10 @@ impl<'a> ToTokens for JoinOutput<'a> {
                         quote! {
                             fn #spawn_tokio_fn_name<T, F>(__future: F) -> impl #futures_crate_path::future::Future<Output=T>
                             where
-                                F: #futures_crate_path::future::Future<Output = T> + ::std::marker::Send + 'static,
-                                T: ::std::marker::Send + 'static,
+                                F: #futures_crate_path::future::Future<Output = T> + __join_core::marker::Send + 'static,
+                                T: __join_core::marker::Send + 'static,
                             {
-                                ::tokio::spawn(__future).map(|#value_name| #value_name.unwrap_or_else(|__err| ::std::panic!("tokio JoinHandle failed: {:#?}", __err)))
+                                ::tokio::spawn(__future).map(|#value_name| #value_name.unwrap_or_else(|__err| __join_core::panic!("tokio JoinHandle failed: {:#?}", __err)))
                             }
                         }
                     )
@@ -1155,6 +1155,9 @@ impl<'a> ToTokens for JoinOutput<'a> {
                 quote! {
                     ::std::boxed::Box::pin(
                         async move {
+                            // `core` is there for every caller (any edition, `#![no_std]` or not), whatever it has in scope.
+                            #[allow(unused_extern_crates)]
+                            extern crate core as __join_core;
                             use #futures_crate_path::{FutureExt as _, TryFutureExt as _, StreamExt as _, TryStreamExt as _};
                             #async_spawn_fn_definition
                             #handler_definition
@@ -1170,7 +1173,7 @@ impl<'a> ToTokens for JoinOutput<'a> {
                     let value_name = construct_internal_value_name();
 
                     quote! {
-                        fn #inspect_fn_name<I>(#handler_name: impl ::std::ops::FnOnce(&I) -> (), #value_name: I) -> I {
+                        fn #inspect_fn_name<I>(#handler_name: impl __join_core::ops::FnOnce(&I) -> (), #value_name: I) -> I {
                             #handler_name(&#value_name);
                             #value_name
                         }
@@ -1202,6 +1205,9 @@ impl<'a> ToTokens for JoinOutput<'a> {
                 };
 
                 quote! {{
+                    // `core` is there for every caller (any edition, `#![no_std]` or not), whatever it has in scope.
+                    #[allow(unused_extern_crates)]
+                    extern crate core as __join_core;
                     #inspect_fn_definition
                     #thread_builder_fn_definition
                     #handler_definition
